@@ -54,6 +54,29 @@ func checkCtxNil(c *core.Ctx) {
 			}
 		}
 	}
+	// ... and pointer fields context.New leaves nil (options, objects created later in the lifecycle)
+	if cnew := prog.SSAFunc("interpreter/context", "New"); cnew != nil {
+		set := map[*types.Var]bool{}
+		for _, b := range cnew.Blocks {
+			for _, in := range b.Instrs {
+				if st, ok := in.(*ssa.Store); ok && !core.IsNilConst(st.Val) {
+					if f := isCtxField(st.Addr); f != nil {
+						set[f] = true
+					}
+				}
+			}
+		}
+		if cp := prog.Pkg("interpreter/context"); cp != nil && len(set) > 20 {
+			if st, ok := cp.Types.Scope().Lookup("Context").Type().Underlying().(*types.Struct); ok {
+				for i := 0; i < st.NumFields(); i++ {
+					f := st.Field(i)
+					if _, isPtr := f.Type().Underlying().(*types.Pointer); isPtr && !set[f] && f.Name() != "Request" {
+						nilable[f] = true
+					}
+				}
+			}
+		}
+	}
 	if len(nilable) == 0 {
 		c.MissingAnchor("sim.ctxnil", "no context field is reset to nil (restart)")
 		return
